@@ -200,6 +200,11 @@ class BuiltinMixin(object):
         """box(x): x as a dynamically typed value"""
         return self.adapt(self.ev1(e.args[0], st), PY)
 
+    def sf_unbox_int(self, e, st):
+        """the integer inside a dynamically typed value (meaningful under an isinstance(x, int) guard)"""
+        a = self.ev1(e.args[0], st)
+        return V(INT, core.py_num(core.to_py(a).t))
+
     def sf_concat_all(self, e, st):
         return core.concat_all(self.ev1(e.args[0], st))
 
@@ -565,18 +570,46 @@ class BuiltinMixin(object):
                     res.append((st1, V(BOOL, (z3.And if universal else z3.Or)(parts or [z3.BoolVal(universal)]))))
                     continue
 
+                as_code = not self.in_spec
+                last_raises = []
+
                 def at(j, st1=st1, seq=seq):
                     s2 = self._bind_elem(g.target, core.lget(seq, j), st1.copy())
                     self.spec_depth += 1
                     n0 = len(self.spec_defs)
+                    saved_collect = getattr(self, "comp_collect", None)
+                    self.comp_collect = [] if as_code else None
                     try:
                         conds = [truthy(self.ev1(c, s2)) for c in g.ifs]
                         body = truthy(self.ev1(a0.elt, s2))
                         self.no_defs_under_binder(n0)
+                        last_raises[:] = self.comp_collect or []
                     finally:
                         self.spec_depth -= 1
+                        self.comp_collect = saved_collect
                     return (z3.Implies(z3.And(conds), body) if conds else body) if universal else z3.And(conds + [body])
                 Q = core.forall_int if universal else core.exists_int
+                at(z3.Int("anyall!probe"))
+                if as_code and last_raises:
+                    # an element evaluation that raises ends any()/all(), unless the scan stopped earlier (short circuit)
+                    ename = last_raises[0][0]
+
+                    def rc(j):
+                        at(j)
+                        return z3.Or([t for _, t in last_raises])
+
+                    def goes_on(i):          # position i neither raised nor stopped the scan
+                        v = at(i)
+                        return z3.And(z3.Not(rc(i)), v if universal else z3.Not(v))
+                    n = core.llen(seq)
+                    raising = core.exists_int(0, n, lambda j: z3.And(rc(j), core.forall_int(0, j, goes_on)))
+                    bad, ok = self.fork(st1, raising, getattr(e, "lineno", None), "anyall-raise")
+                    if bad is not None:
+                        bad = bad.copy()
+                        self.do_raise(bad, self.new_exc(ename, bad, exact=False))
+                    if ok is None:
+                        continue
+                    st1 = ok
                 res.append((st1, V(BOOL, Q(0, core.llen(seq), at))))
             return res
         res = []
@@ -657,6 +690,9 @@ class BuiltinMixin(object):
         return res
 
     def bi_issubclass(self, e, st):
+        ext = self.reg.externals.get("issubclass")
+        if ext is not None and ext != "drop":
+            return self.call_external(ext, e, st)       # the sidecar states when it raises (TypeError for a non-class)
         res = []
         for st1, (a, b) in self._args1(e, st):
             if isinstance(a.ty, Opt):
